@@ -193,9 +193,9 @@ def run(ctx):
     ctx.inst("C02.R3", "control#validate_portable_value", seen_ctrl, "the scope iteration in validate_portable_value (inserting into a HashSet) was enumerated: %s" % seen_ctrl, None)
 
 
-def run_identity(ctx, cg, local, crates):
+def run_identity(ctx, cg, local, crates, rid="C02.R4", doc=None):
     """R4: heap-pointer identity / order must not decide results"""
-    ctx.rule("C02.R4", "no evaluator-reachable code compares Values (or heap pointers) by their derived PartialEq/PartialOrd - heap indices depend on allocation order - except equality against the constant Value::Null", floor=3)
+    ctx.rule(rid, doc or "no evaluator-reachable code compares Values (or heap pointers) by their derived PartialEq/PartialOrd - heap indices depend on allocation order - except equality against the constant Value::Null", floor=3)
     n = 0
     VAL_TYS = ("blots_core::values::Value", "blots_core::heap::ListPointer", "blots_core::heap::StringPointer", "blots_core::heap::RecordPointer",
                "blots_core::heap::LambdaPointer", "blots_core::heap::IterablePointer")
@@ -218,7 +218,7 @@ def run_identity(ctx, cg, local, crates):
             m_ = re.match(r"^<blots_core::(values::Value|heap::\w+Pointer) as core::cmp::PartialOrd>::(\w+)$", r)
             if m_:
                 n += 1
-                ctx.inst("C02.R4", "%s#%s[%d]" % (name.replace(CORE, ""), m_.group(2), k), False,
+                ctx.inst(rid, "%s#%s[%d]" % (name.replace(CORE, ""), m_.group(2), k), False,
                          "%s orders heap indices: the result depends on allocation order (binding a sub-expression to a name changes it)" % r, fn.loc(b))
                 k += 1
     # equality: read from the HIR so that the constant operand is visible
@@ -247,7 +247,7 @@ def run_identity(ctx, cg, local, crates):
                 continue
             n += 1
             ok = op in ("Eq", "Ne") and (is_null_const(l) or is_null_const(r))
-            ctx.inst("C02.R4", "%s#%s[%d]" % (par.replace(CORE, ""), op, k), ok,
+            ctx.inst(rid, "%s#%s[%d]" % (par.replace(CORE, ""), op, k), ok,
                      "derived %s on Value operands; one operand is the constant Value::Null: %s" % (op, ok), H.loc(x))
             k += 1
     ctx.units["identity_comparison_sites"] = n
